@@ -45,16 +45,51 @@ def cover_product(rng, comps, n):
     return out
 
 
-def execute(ctx, pool, cases, group_key):
-    """cases: list of dict(db, q). Runs them grouped by database; fills case['res']."""
+DEAD_MARK = 987654
+
+
+def with_history(rng, db, template=None):
+    """The same tables with a past: rows that were inserted between the others (and, for an empty table, before nothing) and
+    deleted again before the first query.  A dead row is a copy of a live one (or of `template`) whose first integer column
+    holds a value no live row has; the DELETE names that value.  The specification is given the live rows only."""
+    out = {}
+    for name, t in db.items():
+        ints = [i for i, c in enumerate(t["cols"]) if c["ty"] in ("i", "I")]
+        src = t["rows"] or ([template] if template and len(template) == len(t["cols"]) else [])
+        if not ints or not src or len(t["rows"]) > 400 or any(r[ints[0]]["t"] == "i" and r[ints[0]]["v"] == DEAD_MARK for r in t["rows"]):
+            out[name] = t
+            continue
+        k = ints[0]
+        dead, at = [], []
+        for _ in range(rng.randrange(1, 4)):
+            r = [dict(c) for c in rng.choice(src)]
+            r[k] = dict(t="i", v=DEAD_MARK, s=[])
+            dead.append(r)
+            at.append(rng.randrange(len(t["rows"]) + 1))
+        out[name] = dict(t, dead=dead, deadat=at, deadwhere="%s = %d" % (t["cols"][k]["n"], DEAD_MARK))
+    return out
+
+
+def execute(ctx, pool, cases, group_key, history=None):
+    """cases: list of dict(db, q). Runs them grouped by database; fills case['res'].  history = a random generator: every third
+    database is loaded with deleted rows among the live ones (with_history)."""
     groups = {}
     for i, c in enumerate(cases):
         groups.setdefault(group_key(c), []).append(i)
     reqs = []
-    for k, idxs in groups.items():
+    template = None
+    for c in cases:
+        for t in c["db"].values():
+            if t["rows"] and template is None:
+                template = t["rows"][0]
+    for g, (k, idxs) in enumerate(groups.items()):
+        db = cases[idxs[0]]["db"]
+        if history is not None and g % 3 == 1:
+            db = with_history(history, db, template)
+            execute.with_history = getattr(execute, "with_history", 0) + 1
         for j in range(0, len(idxs), 200):
             part = idxs[j:j + 200]
-            reqs.append(dict(db=cases[part[0]]["db"], qs=[cases[i]["q"] for i in part], _idx=part, caps=cases[part[0]].get("caps") or []))
+            reqs.append(dict(db=db, qs=[cases[i]["q"] for i in part], _idx=part, caps=cases[part[0]].get("caps") or []))
 
     def on_result(req, resp):
         if resp.get("fatal"):
